@@ -128,16 +128,34 @@ PROPS = {
     },
     "C17": {
         "lean": "Props.C17",
-        "domains": [{"name": "output"}],
-        "trusted": ["each sink Write call is atomic; the Prefixed mutex makes the four writes of a line one atomic block (pinned by Gen.Output); "
-                    "concurrent harness cases use distinct prefixes / begin markers so blocks can be attributed to writers"],
-        "assumptions": ["one output style per run (the style is a global Taskfile setting); Logger writes to the same stream outside the mutex and "
-                        "stdout/stderr of one pipeline are not modelled"],
+        "domains": [{"name": "output"}, {"name": "outputexec", "timeout": 3000}],
+        "trusted": ["each Write call on the shared sink is atomic (one recording sink object in the harness; for a terminal or pipe: one write(2) "
+                    "call not larger than the pipe capacity); harness sink, goroutine scheduling and hex canonicalisation; concurrent harness cases "
+                    "use distinct prefixes / begin markers / writer-specific letters so that the acceptor's search stays small (the acceptor itself is "
+                    "exact: interleaves_iff)"],
+        "assumptions": ["one output style per run (the style is a global Taskfile setting); "
+                        "C-C17-own-stderr: Task's own log lines go to file descriptor 2 and command output to file descriptor 1 - when both are one "
+                        "terminal or pipe (2>&1) the kernel orders whole write calls but may split one larger than the pipe capacity, so a log line "
+                        "can then land inside a group block or prefixed line larger than that; the model has ONE sink whose Write is atomic (the "
+                        "executor-level stream gives the Executor one sink object for both, where log lines are raw writes among the wrapped ones); "
+                        "a raw writer (interactive: true, Task's log lines) is not line-buffered by Task: its own lines can be cut by whole prefixed lines"],
         "level_text": "Theorems for every byte string, chunking and interleaving: the prefixed writer emits exactly the lines of the concatenated input "
-                      "(chunking-invariant, last partial line newline-terminated at close, no byte lost or duplicated, each line whole and prefixed); the "
-                      "group writer emits one write begin++bytes++end iff output is non-empty and (not error_only or failed); any interleaving of atomic "
-                      "blocks preserves every writer's block sequence. Tie: Gen.Output (mutex region, single sink write) + the real internal/output writers "
-                      "driven with the same chunkings, single and concurrent, compared write by write.",
+                      "(chunking-invariant, last partial line newline-terminated at close; C17_prefixed_bytes: the lines concatenate to the input exactly "
+                      "when it is empty or ends in a newline, else to input plus one newline; each line whole); the group writer emits one write "
+                      "begin++bytes++end iff output is non-empty and (not error_only or failed). Several producers of ONE command (stdout / stderr of a "
+                      "pipeline's stages, background jobs) - Write and close hold the writer's own mutex, so each is one step: for EVERY interleaving of "
+                      "the producers' chunk sequences the lines / the block are those of the interleaved stream, which consists of exactly the "
+                      "producers' chunks, each producer's in order (C17_multi_producer_prefixed/_group). Composition down to the bytes of the shared "
+                      "stream (C17_compose_project/_prefixed/_group/_group_silent, C17_thread_project): in any interleaving of the writes of any mix of "
+                      "prefixed, group and raw writers the writes of writer i are exactly (linesOf input_i).map (lineBlock prefix_i), resp. its one "
+                      "block, which lies contiguously in the byte stream with nothing of writer i outside it. The driver's acceptors are the model's: "
+                      "accepts / acceptsThreads are exact for Shuffle (C17_accepts_sound, _complete), acceptsPW / acceptsGW sound. Tie: Gen.Output "
+                      "(lock first in Write / close of both writers, the mutex is a field of the writer, who touches the buffers, ONE sink write in "
+                      "writeLine and groupWriter.close, runCommand: wrap, run, close(runErr) once and unconditionally) + the real internal/output writers "
+                      "driven with the same chunkings: single, several producer goroutines on one writer, concurrent writers with raw writers in "
+                      "between, compared write by write + the real Executor (domain outputexec: group / prefixed, parallel deps, ignore_error, a failing "
+                      "last command, a command killed by cancellation under error_only, templated prefix / begin / end, interactive tasks, blocks over "
+                      "64 KiB, stdout and stderr one recording sink).",
         "level_note": "Trusted: Lean kernel; atomicity of a single Write on the shared stream; harness sink and canonicalisation.",
     },
     "C20": {
